@@ -4,7 +4,7 @@
    so that it is compiled and audited with the rest. *)
 From Coq Require Import ZArith NArith Bool List.
 From SV Require Import Common.GoInt C13.Base C13.Index C13.Str C13.Seq C13.Spec.
-From SV Require Import C13.ProofsIndex C13.ProofsSlice C13.ProofsSeq C13.ProofsStr.
+From SV Require Import C13.ProofsIndex C13.ProofsSlice C13.ProofsSeq C13.ProofsStr C13.ProofsStr2 C13.ProofsStr3 C13.ProofsRange.
 From SV Require C13.History.
 Import ListNotations.
 Open Scope Z_scope.
@@ -23,6 +23,13 @@ Theorem slice_correct :
     slice_impl xs lo hi st = of_spec (slice_spec xs lo hi st).
 Proof. exact slice_correct_lemma. Qed.
 
+(* signum64(x) = int(uint64(x>>63) | uint64(-x)>>63), the bit-level text of
+   eval.go that the Slice loops use for their exit test, is the sign of x on
+   every int64 (the models use Z.sgn) *)
+Theorem signum64_is_sign :
+  forall x, in_int64 x = true -> signum_bits x = Z.sgn x.
+Proof. exact signum_bits_sgn. Qed.
+
 (* x[i]: -n <= i < n, n added to a negative i; anything else fails *)
 Theorem index_correct :
   forall (A : Type) (xs : list A) y,
@@ -40,6 +47,32 @@ Proof. exact setindex_correct_lemma. Qed.
 Theorem indices_clamp :
   forall n lo hi, 0 <= n <= 2^61 -> indices lo hi n = clamped_bounds n lo hi.
 Proof. exact indices_clamp_lemma. Qed.
+
+(* Ranges.  A range value with 32-bit parameters (range arithmetic beyond that
+   is property C10) is the list of its elements start, start+step, ...; slicing
+   it -- rangeValue.Slice computes a new (start, stop, step, len) with Go int
+   arithmetic and the unsigned division of rangeLen -- gives exactly the range
+   whose elements are the Python slice of the element list, for every operand
+   triple of any size; it fails exactly when the slice expression must fail. *)
+Theorem range_elems_correct :
+  forall r, rng_ok r -> range_elems r = range_spec (r_start r) (r_stop r) (r_step r).
+Proof. exact range_elems_spec_lemma. Qed.
+
+Theorem range_slice_correct :
+  forall r lo hi st,
+    rng_ok r ->
+    match range_slice_impl r lo hi st with
+    | Ok r' => slice_spec (range_elems r) lo hi st = Some (range_elems r')
+    | Err => slice_spec (range_elems r) lo hi st = None
+    | _ => False
+    end.
+Proof. exact range_slice_correct_lemma. Qed.
+
+Theorem range_index_correct :
+  forall r y,
+    rng_ok r -> r_len r <= 2^31 ->
+    range_get_index r y = of_spec (index_spec (range_elems r) y).
+Proof. exact range_index_correct_lemma. Qed.
 
 (* Every list method, every receiver, every argument tuple (wrong arity, wrong
    types, None, integers of any size): result and the list afterwards equal
@@ -68,22 +101,31 @@ Theorem concat_correct :
   forall x y, binary_plus x y = of_spec (spec_plus x y).
 Proof. exact plus_correct_lemma. Qed.
 
-(* String methods.  FULL statement: for every method m, receiver and argument
-   tuple, string_method m recv args = of_spec (spec_string_method (sspec m) recv args).
-   Proved here for find, rfind, index, rindex, startswith, endswith (incl. tuples
-   and sub-ranges), partition, rpartition, strip, lstrip, rstrip, join,
-   removeprefix, removesuffix, upper, lower, capitalize, title and the seven
-   is* predicates.  Missing: count, split, rsplit, splitlines, replace
-   (proved_method = false; they are covered by the correspondence / oracles
-   only).  Excluded input: an explicit empty cutset for the strip family, where
-   the full statement is FALSE on the unchanged tree (strip_empty_cutset_refuted). *)
+(* String methods.  FULL statement: for every method m (all 30: count, find,
+   rfind, index, rindex, startswith, endswith, split, rsplit, splitlines,
+   partition, rpartition, strip, lstrip, rstrip, replace, join, removeprefix,
+   removesuffix, upper, lower, capitalize, title, isalnum, isalpha, isdigit,
+   islower, isupper, isspace, istitle), every receiver and every argument tuple
+   (wrong arity, wrong types, None, omitted optionals, integers of any size),
+     string_method m recv args = of_spec (spec_string_method (sspec m) recv args).
+   The full statement is FALSE on the unchanged tree for exactly one input
+   class -- an explicit empty cutset for strip / lstrip / rstrip
+   (strip_empty_cutset_refuted, known finding strip:empty-cutset) -- and is
+   proved for everything else: the guard not_empty_cutset excludes only
+   (strip|lstrip|rstrip, [""]).  Included: sub-ranges by the slice conventions
+   for operands of any size, tuples of prefixes, split/rsplit with a separator
+   for every maxsplit (the int64 wrap of maxsplit+1; rightmost occurrences
+   for rsplit, also when they overlap), the hand-written loops splitspace and
+   rsplitspace statement by statement against the word splitter of the
+   specification (rsplit = split of the reversed string), strings.Fields for
+   an unlimited rsplit, splitlines, replace with every count and an empty
+   `old`, and the case predicates against their declarative definitions. *)
 Theorem string_methods_correct_partial :
   forall m recv args,
-    proved_method m = true ->
-    (strip_method m = true -> args <> [VStr []]) ->
+    not_empty_cutset m args = true ->
     blen recv <= 2^61 ->
     string_method m recv args = of_spec (spec_string_method (sspec m) recv args).
-Proof. exact string_methods_correct_partial_lemma. Qed.
+Proof. exact string_methods_correct_lemma. Qed.
 
 (* " a ".strip("") strips white space; the specification (cutset = the given
    characters) and Python 3 leave the string alone.  Known finding strip:empty-cutset. *)
@@ -97,7 +139,7 @@ Proof. exact strip_refuted_lemma. Qed.
 (* Non-vacuity *)
 Example slice_premises_hold :
   let xs := [98; 97; 110; 97; 110; 97]%N in
-  Z.of_nat (length xs) <= 2^61 /\
+  Z.of_nat (length xs) <= 2^61 /\ Z.of_nat (length xs) <= 2^31 /\ 0 <= 6 <= 2^61 /\ in_int64 (-5) = true /\
   slice_impl xs (AInt 4) ANone (AInt (-2)) = Ok [110; 110; 98]%N /\
   slice_spec xs (AInt 4) ANone (AInt (-2)) = Some [110; 110; 98]%N /\
   slice_impl xs ANone (AInt (2^100)) (AInt (2^70)) = Ok [98]%N /\
@@ -108,10 +150,26 @@ Proof. vm_compute. repeat split; intro; discriminate. Qed.
 
 Example method_premises_hold :
   let recv := [98; 111; 110; 98; 111; 110]%N in
-  proved_method MRfind = true /\ blen recv <= 2^61 /\
+  not_empty_cutset MRfind [VStr [111; 110]%N; VNone; VInt 5] = true /\ blen recv <= 2^61 /\
+  not_empty_cutset MStrip [VStr [97]%N] = true /\
+  string_method MRsplit [97; 97; 97]%N [VStr [97; 97]%N; VInt 1] = Ok (VList [VStr [97]%N; VStr []]) /\
+  string_method MSplit recv [VStr [110]%N; VInt 1] = Ok (VList [VStr [98; 111]%N; VStr [98; 111; 110]%N]) /\
+  string_method MReplace recv [VStr []; VStr [45]%N; VInt 2] = Ok (VStr [45; 98; 45; 111; 110; 98; 111; 110]%N) /\
   string_method MRfind recv [VStr [111; 110]%N; VNone; VInt 5] = Ok (VInt 1) /\
   string_method MStrip [32; 97; 32]%N [VStr [97]%N] = Ok (VStr [32; 97; 32]%N) /\
+  zlen [VInt 1; VInt 2] <= 2^61 /\
   list_method LInsert [VInt 1; VInt 2] [VInt (-1); VInt 9] = Ok (VNone, [VInt 1; VInt 9; VInt 2]) /\
   builtin BZip [VList [VInt 1; VInt 2]; VTuple [VInt 3]] = Ok (VList [VTuple [VInt 1; VInt 3]]) /\
   repeat_impl [1; 2]%N (-5) = Ok [].
 Proof. vm_compute. repeat split; intro; discriminate. Qed.
+
+Example range_premises_hold :
+  let r := {| r_start := 5; r_stop := -4; r_step := -3; r_len := 3 |} in
+  rng_ok r /\ range_elems r = [5; 2; -1] /\
+  (exists r', range_slice_impl r ANone ANone (AInt (-1)) = Ok r' /\ range_elems r' = [-1; 2; 5]).
+Proof.
+  split; [|split].
+  - unfold rng_ok. vm_compute. repeat split; intro; discriminate.
+  - reflexivity.
+  - eexists. split; [vm_compute; reflexivity|reflexivity].
+Qed.
